@@ -2,6 +2,16 @@
 """Write /verif/seeded/<name>/meta.json for every seeded change from its confirmation.txt."""
 import json, os, re, glob
 NEEDS = {
+ "C02e_parallel_rollback_reads_previous_too_late": "parallel flavour: a set_params at which evaluation fails (overflow region) after a valid state; the rollback reads model.params() after the model already holds the new parameters, so the old cache stays under the new parameters",
+ "C03e_zero_test_by_underflowing_norm": "f32 and |W D_k C| below ~2.6e-23 in every element (tiny units of y and x): nalgebra's unscaled norm() underflows to zero and the column is filled with zeros",
+ "C04e_column_normalisation_with_overflowing_norm": "a column of W*Phi with finite entries whose sum of squares overflows (f32: entries >= 1.8e19/sqrt(N)): norm = inf, column and coefficient become exactly 0, fit returns Ok at the initial guess",
+ "C07e_global_rhs_scale_underflows_small_columns": "several right-hand sides whose magnitudes differ by more than the dynamic range of the scalar type (f32: 1e-27 next to 1e20): one global power-of-two scale underflows the small columns",
+ "C09e_success_by_tiny_objective_despite_model_failure": "observations in small units (objective <= machine epsilon from the first evaluation) and a model failure met by the optimizer: was_successful() is true, fit returns Ok",
+ "C10e_parallel_scratch_gemm_accumulates": "parallel flavour and a rayon leaf job with >= 2 Jacobian columns (1 worker: P >= 3; 2-3 workers: P >= 5): gemm with beta = 1 adds onto the worker's scratch",
+ "C11e_parallel_skip_for_equal_params_ignores_signed_zero": "parallel flavour, a valid cache, then set_params with a vector that differs only in the sign of a zero component: == sees no change, the stale state is kept",
+ "C15e_independent_variable_keeps_function_open": "function(..), [partial_deriv..], independent_variable(x), partial_deriv(..) supplying the missing derivative: the function under construction is not finalised by independent_variable, build() returns Ok",
+ "C16e_column_cache_flag_cleared_before_fallible_eval": "a successful eval, set_params changing a parameter of function j, an eval that fails inside function j, then another eval without function j's parameters changing: column j is stale",
+ "C17e_length_check_latched_off_after_first_success": "a basis function that returned the right length once and a wrong length later (length depending on parameter values): the latched-off check lets nalgebra's copy_from panic",
  "C01e_truncated_solve_transpose_instead_of_adjoint": "a model with a complex scalar type and genuinely complex basis values: U^T y instead of U^H y in the truncated solve (real scalars are bit-identical)",
  "C05d_dark_right_hand_sides_dropped_from_jacobian": "all linear coefficients of all right-hand sides at most epsilon in magnitude (data in tiny units: f32 amplitudes below 1.2e-7, f64 below 2.2e-16, or a user epsilon): the Jacobian is zero, the fit stops at the initial guess with Orthogonal",
  "C06d_weights_applied_twice_when_rhs_equals_basis_count": "non-uniform weights and as many right-hand sides as basis functions (S == M; single rhs: exactly one basis function): two overlapping conditionals weight both D_k and D_k*C",
